@@ -47,6 +47,9 @@ def run(ctx, rep):
         # resets one at every step and overflows the stack)
         c05.check_rec(crate, rep, cfg)
         c05.check_child_vm(crate, rep, cfg)
+        # the reviewed `arr[i]` / `chars[i]` rows of R-PANIC rest on resolve_index answering < len: its casts and arithmetic (C14, shared)
+        from props import c14
+        c14.check_arith_cast(crate, rep, cfg)
         import rpanic
         rpanic.check(crate, rep, "R-PANIC.render", ("vm/interpreter.rs", "vm/state.rs", "vm/for_loop.rs", "vm/stack.rs", "value/mod.rs", "value/number.rs", "value/key.rs"), cfg, 40)
 
